@@ -24,7 +24,9 @@ B = tys.Bool
        outside="larger B / A", opts={"max_paths": 400000, "timeout_s": 3000})
 def insert_hugr_is_isomorphic_embedding(dels):
     b, live = holey_hugr(4, tag="b.", dels=dels)
-    if P(True, False):
+    if not sym.concretize(sym.bool("B_has_links")):
+        blinks = []  # B without any link: counts come from the creation-time requests alone
+    elif P(True, False):
         blinks = live_links(1, live, tag="bl", max_off=None)
         if blinks:  # a second link duplicating the first (multi-link on both ports), optional
             l0 = blinks[0]
@@ -39,6 +41,10 @@ def insert_hugr_is_isomorphic_embedding(dels):
         # (two freed indices, so that B's root and its first child both land on a reused index)
         k = sym.concretize(sym.int("freed.count", 0, 2))
         gone = [a.add_node(store.node_op(7), num_outs=k, metadata={"stale": True}) for _ in range(2)]
+        # ... and the deleted nodes had order links and a value link of their own
+        a.add_order_link(anodes[1], gone[0])
+        a.add_order_link(gone[1], anodes[2])
+        a.add_link(gone[0].out(0), gone[1].inp(0))
         for g in gone:
             a.delete_node(g)
     par = anodes[sym.concretize(sym.int("parent", 0, P(1, 2)))]
@@ -80,6 +86,12 @@ def insert_hugr_is_isomorphic_embedding(dels):
         got = list(a.linked_ports(InPort(mu[tv], to)))
         want = [(mu[sym.concretize(t)].idx, q) for (t, q) in store.sources(blinks, tv, to)]
         sym.check("links_of_image_from_target_end", store.same_ports(got, want))
+    # the images that may sit on reused indices carry exactly B's order links (nothing left over from a deleted node)
+    oko = True
+    for i in live[:2]:
+        oko = sym.and_(oko, store.same_ports(list(a.linked_ports(OutPort(mu[i], -1))), [(mu[sym.concretize(t)].idx, q) for (t, q) in store.targets(blinks, i, -1)]),
+                       store.same_ports(list(a.linked_ports(InPort(mu[i], -1))), [(mu[sym.concretize(t)].idx, q) for (t, q) in store.sources(blinks, i, -1)]))
+    sym.check("order_links_of_image_are_exactly_Bs", oko)
     # A's prior nodes and links unchanged
     oka = True
     for (idx, op, parent, kids) in a_before:
@@ -143,7 +155,7 @@ def insert_wrappers_attach_wires():
     outer = Dfg(*[B] * 2)
     nonlocal_wires = sym.concretize(sym.bool("from_enclosing_region"))
     host = outer.add_nested() if nonlocal_wires else outer
-    wires = [outer.inputs()[j % 2] for j in range(n_in)]
+    wires = [outer.inputs()[(j + 1) % 2] for j in range(n_in)]  # distinct wires, not in input order
     before = len(outer.hugr)
     if kind == 0:
         node = host.insert_nested(inner, *wires)
@@ -152,7 +164,8 @@ def insert_wrappers_attach_wires():
     elif kind == 2:
         node = host.insert_conditional(inner, *wires)
     else:
-        node = host.insert_tail_loop(inner, wires, [])
+        split = sym.concretize(sym.int("n_just_inputs", 0, n_in))
+        node = host.insert_tail_loop(inner, wires[:split], wires[split:])
     h = outer.hugr
     sym.check("inserted_node_count", len(h) == before + len(inner.hugr))
     sym.check("handle_is_image_of_root", h[node].op is inner.hugr[inner.hugr.root].op and h[node].parent == host.parent_node)
